@@ -551,6 +551,7 @@ func init() {
 			"0-4 style rules adding ::before/::after/::marker boxes of block/table-cell/table-row/inline-block/grid/floated/absolute display and display overrides for table tags; display on html/body; presentational hints on/off. Pipeline: NewHTML -> GetAllComputedStyles -> BuildFormattingStructure (as boxes_test.go). " +
 			"Oracle: a validity predicate written from CSS 2.1 9.2 / 17.2.1, Flexbox 4 and Grid 6 over the resulting tree (see DESIGN.md C09); children out of normal flow and the content of running elements are exempt from the parent/child type rules, as in the repository's own sanityChecks helper. " +
 			"Loaded replaced elements (PNG data: URI): block-level box exactly for a block-level outer display type. " +
+			"Span attributes also in the spellings 03, 0012, ' 2 ', +2, 0x3, 0b11, 0o2, 1_0, 2.0, 3e0. " +
 			"Non-trivial: the tree holds at least one anonymous box (a box sharing element and pseudo type with its parent).",
 		ImportantLabels: []string{"table", "flex-container", "grid-container", "colspan", "rowspan", "out-of-flow-child", "anonymous-boxes", "running"},
 		Assumptions:     []string{"crashes while building the tree belong to C01 and are excluded"},
